@@ -13,6 +13,9 @@ iteration order (`pi`) the harness supplies.
 * `decl.order.sort`     {"pi": [str ..]} -> {"sorted": [..], "typing": [..], "adhoc": [..]}
 * `decl.order.routes`   {"pi": [[name, version] ..]} -> {"routes": [[name, version] ..], "reprs": [..]}
 * `decl.order.routeio`  {"self": "a", "pi": [[ns, name] ..]} -> {"types": [[ns, name] ..], "foreign": [ns ..]}
+* `decl.order.outdir`   {"dir": [[path, [byte ..]] ..], "writes": [[path, "wb"|"ab", text] ..]}
+      -> {"dir": [[path, [byte ..]] ..], "promised": [[path, [byte ..] | null] ..], "skip_text": [[path, [byte ..]] ..]}
+      (`build` on the directory; `promised` for every written path; `skip_text` = the regression model)
 * `decl.order.tables`   {} -> the coverage tables (sites, sort sites with key class, class state)
 -/
 open Lean
@@ -71,8 +74,28 @@ def keyClassName : KeyClass → String
 def site4 (r : String × String × Nat × String) : Json :=
   Json.arr #[Json.str r.1, Json.str r.2.1, Json.num r.2.2.1, Json.str r.2.2.2]
 
+def bytesToJson (b : Bytes) : Json := Json.arr (b.map fun n => toJson n).toArray
+
+def dirToJson (d : Dir) : Json := Json.arr (d.map fun e => Json.arr #[Json.str e.1, bytesToJson e.2]).toArray
+
 def handle (op : String) (j : Json) : Except String Json := do
   match op with
+  | "decl.order.outdir" =>
+    let dir ← (← jarr j "dir").toList.mapM fun e => do
+      match (← e.getArr?).toList with
+      | [p, b] => pure ((← p.getStr?), (← (← b.getArr?).toList.mapM fun n => n.getNat?))
+      | _ => throw "[path, bytes] expected"
+    let ws ← (← jarr j "writes").toList.mapM fun e => do
+      match (← e.getArr?).toList with
+      | [p, m, t] => do
+        match modeOfString (← m.getStr?) with
+        | some mode => pure ({ path := (← p.getStr?), mode := mode, out := utf8 (← t.getStr?) } : Write)
+        | none => throw "mode: wb or ab expected"
+      | _ => throw "[path, mode, text] expected"
+    pure <| ok [("dir", dirToJson (build dir ws)),
+                ("promised", Json.arr (ws.map fun w => Json.arr #[Json.str w.path,
+                    match promised ws w.path with | some b => bytesToJson b | none => Json.null]).toArray),
+                ("skip_text", dirToJson (buildSkipText dir ws))]
   | "decl.order.callers" =>
     let pi ← (← jarr j "pi").toList.mapM callerOfJson
     let cls ← jstr j "cls"
